@@ -2,7 +2,7 @@
    real implementation's schedules and generated code.  No proofs here. *)
 From Coq Require Import List NArith Bool.
 Import ListNotations.
-From PV Require Import C22.Model C22.Required C22.Access.
+From PV Require Import C22.Model C22.Required C22.Access C22.DepthList.
 Open Scope N_scope.
 
 Definition opt_eqb {A} (f : A -> A -> bool) (x y : option A) : bool :=
@@ -90,27 +90,30 @@ Definition all_safe (cfg cont : bool) (cfgs : list (N * N * N)) (p : list stmt) 
     cfgs.
 
 Inductive hcase :=
-| CX (cfg : bool) (readers : list (rarg * hread)) (obs : list hdepth) (w : option (warg * hwrite)) (req : bool * bool)
+| CX (fixed cfg : bool) (readers : list (rarg * hread)) (obs : list hdepth) (w : option (warg * hwrite)) (req : bool * bool)
 | CL (cfg : bool) (l : larg) (obs : option bool)
 | CM (w : warg) (dirty : bool) (clean : option sdepth)
-| CR (cfg : bool) (a : rarg) (k : lkind) (t : targ)            (* structural premise compat_r *)
+| CR (fixed1 cfg : bool) (a : rarg) (k : lkind) (t : targ)     (* structural premise compat_r (+ r_auw = t_ghwc over owned cells when the F1 repair is present) *)
 | CW (cfg : bool) (w : warg) (k : lkind) (t : targ)            (* structural premise compat_w *)
 | CF (cfg cont : bool) (cfgs : list (N * N * N)) (p : list fstmt) (py_safe : bool)   (* Python machine = Coq machine *)
-| CP (cfg cont : bool) (p : list fstmt).                               (* well_placed *)
+| CP (mlo : N) (cfg cont : bool) (p : list fstmt).                               (* well_placed *)
 
 Definition check (c : hcase) : bool :=
   match c with
-  | CX cfg readers obs w req =>
+  | CX fixed cfg readers obs w req =>
       forallb (fun ah => match read_access (fst ah) with Some h' => hread_eqb h' (snd ah) | None => false end) readers
       && list_eqb hdepth_eqb (create_depth_list (map snd readers)) obs
+      && forallb wf (map snd readers)
       && match w with Some (wa, hw) => hwrite_eqb (write_access wa) hw | None => true end
-      && bb_eqb (required cfg obs (option_map snd w)) req
+      && bb_eqb (required_gen fixed cfg obs (option_map snd w)) req
   | CL cfg l obs => opt_eqb Bool.eqb (halo_read_access cfg l) obs
   | CM w dirty clean =>
       let m := marks (write_access w) in Bool.eqb (fst m) dirty && opt_eqb sdepth_eqb (snd m) clean
-  | CR cfg a k t => compat_r cfg a k t && opt_eqb (fun x y => true) (lkind_of (r_ub a) (r_ubd a)) (Some k)
+  | CR fixed1 cfg a k t =>
+      compat_r cfg a k t && opt_eqb (fun x y => true) (lkind_of (r_ub a) (r_ubd a)) (Some k)
+      && (negb fixed1 || negb (match r_ub a with BNcells => true | _ => false end) || Bool.eqb (r_auw a) (t_ghwc t))
   | CW cfg w k t => compat_w cfg w k t
   | CF cfg cont cfgs p py_safe =>
       match build p with Some q => Bool.eqb (all_safe cfg cont cfgs q) py_safe | None => false end
-  | CP cfg cont p => match build p with Some q => well_placed cfg cont q | None => false end
+  | CP mlo cfg cont p => match build p with Some q => well_placed mlo cfg cont q | None => false end
   end.
